@@ -134,6 +134,8 @@ class BasicOptimizer:
                     plan.add_handler(key, sources={optimizer}, **{key: value})
             for event_type, function in self._observers:
                 self._optimizer_context.add_observer(event_type, function)
+            # The context keeps the observers, do not add them again in a next run:
+            self._observers.clear()
 
         results, exit_code = plan.run_function(self._transforms)
         variables = None if results is None else results.evaluations.variables
